@@ -14,3 +14,8 @@ pub fn ingredient_index_as_u32(index: IngredientIndex) -> u32 {
 pub fn revision_as_usize(revision: Revision) -> usize {
     revision.as_usize()
 }
+
+/// Inverse of [`ingredient_index_as_u32`].
+pub fn ingredient_index_from_u32(index: u32) -> IngredientIndex {
+    IngredientIndex::new(index)
+}
